@@ -120,6 +120,20 @@ class Gen:
         """VLAs, whole-struct copies, struct-by-value calls"""
         r = self.r
         k = r.random()
+        if k < 0.12:
+            # two-dimensional VLA: row stride is a run-time value
+            n, m, a, i, j, t = self.fresh("n"), self.fresh("m"), self.fresh("vla"), self.fresh("i"), self.fresh("j"), r.choice(ALL)
+            ln, lm = r.randrange(2, 5), r.randrange(1, 5)
+            out = [s_decl(n, T("uint"), i_e(lit("uint", ln))), s_decl(m, T(r.choice(["int", "ulong", "uchar"])), i_e(lit("int", lm))), s_vla(a, T(t), var(n), var(m)),
+                   s_for(s_decl(i, T("int"), i_e(lit("int", 0))), bin_("<", var(i), lit("int", ln)), s_expr(incdec(var(i))),
+                         s_for(s_decl(j, T("int"), i_e(lit("int", 0))), bin_("<", var(j), lit("int", lm)), s_expr(incdec(var(j))),
+                               s_asg("=", idx(idx(var(a), var(i)), var(j)), bin_("+", bin_("*", var(i), lit("int", 10)), var(j))))),
+                   s_obs(sizeof_(var(a))), s_obs(sizeof_(idx(var(a), lit("int", 0)))),
+                   s_obs(bin_("-", addr(idx(var(a), lit("int", ln - 1))), addr(idx(var(a), lit("int", 0)))))]
+            out += [s_obs(idx(idx(var(a), lit("int", r.randrange(ln))), lit("int", r.randrange(lm)))) for _ in range(3)]
+            sc["ints"][n] = "uint"
+            sc["ro"].add(n)
+            return out
         if k < 0.4:
             n, a, i, t, ln = self.fresh("n"), self.fresh("vla"), self.fresh("i"), r.choice(ALL), r.randrange(1, 7)
             mul = self.lit_for(r.choice(UINTS), small=True)
